@@ -22,6 +22,10 @@ using namespace sim;
 
 namespace {
 
+// equality of recorded numbers: same value (+0 and -0 are the same number), or both not-a-number
+inline bool same_num(double a, double b) { return a == b || (std::isnan(a) && std::isnan(b)); }
+inline bool same_vec(std::vector<double> const &a, std::vector<double> const &b) { if (a.size() != b.size()) return false; for (size_t i = 0; i < a.size(); i++) if (!same_num(a[i], b[i])) return false; return true; }
+
 const char *k_bias_tmpl[] = {"harm_fixed", "harm_cmove", "harm_kmove", "walls_fixed", "linear_fixed", "meta_grid", "meta_nogrid", "histogram", "abmd", "walls_kmove", "meta_keep"};
 
 J gen(uint64_t seed, bool thorough) {
@@ -204,12 +208,13 @@ Outcome execute(J const &plan, std::vector<bool> const *skip, RunResult &res, bo
       bool there = k == "addcv" ? cvm::colvar_by_name(nm) != NULL : cvm::bias_by_name(nm) != NULL;
       if (!there) { out.rejected[i] = true; if (out.fail_msg.empty()) out.fail_msg = nm + ": " + e->last_error(); }
     } else if (k == "off" || k == "on") {
-      if (cvm::bias_by_name(nm)) e->run_script({"cv", "bias", nm, "set", "active", k == "on" ? "1" : "0"});
+      if (cvm::bias_by_name(nm)) { e->run_script({"cv", "bias", nm, "set", "active", k == "on" ? "1" : "0"}); if (check_graph) res.counters["fault.bias_switched_off_or_on"]++; }
     } else if (k == "delbias") {
-      if (cvm::bias_by_name(nm)) e->run_script({"cv", "bias", nm, "delete"});
+      if (cvm::bias_by_name(nm)) { e->run_script({"cv", "bias", nm, "delete"}); if (check_graph) res.counters["fault.delete_bias"]++; }
     } else if (k == "delcv") {
-      if (cvm::colvar_by_name(nm)) e->run_script({"cv", "colvar", nm, "delete"});
+      if (cvm::colvar_by_name(nm)) { e->run_script({"cv", "colvar", nm, "delete"}); if (check_graph) res.counters["fault.delete_variable"]++; }
     } else if (k == "reset") {
+      if (check_graph) res.counters["fault.reset"]++;
       e->run_script({"cv", "reset"});
       // a reset forgets the module-level settings too: the driver re-applies them, as an engine script would
       e->run_script({"cv", "config", config});
@@ -235,7 +240,7 @@ RunResult run(J const &plan) {
   { SimRun sim(1); test = execute(plan, nullptr, res, true); sim.finish(res); }
   // a definition the library refuses (and cleans up itself) is one more define-then-delete: the twin never issues it
   long nrej = 0; for (bool b : test.rejected) if (b) nrej++;
-  res.counters["probe.definitions_rejected_and_cleaned_up"] += nrej;
+  res.counters["probe.definitions_rejected_and_cleaned_up"] += nrej; res.counters["fault.definition_refused"] += nrej;
   std::vector<bool> skip = twin_skips(plan.at("ops"), test.rejected);
   { SimRun sim(1); twin = execute(plan, &skip, res, false); sim.finish(res); }
   long ndel = 0; for (bool b : skip) if (b) ndel++;
@@ -300,14 +305,14 @@ RunResult run(J const &plan) {
       bool inactive = a.cv_active.count(kv.first) && !a.cv_active.at(kv.first) && b.cv_active.count(kv.first) && b.cv_active.at(kv.first);
       if (inactive) tainted.insert(kv.first);
       if (tainted.count(kv.first)) { if (inactive && sleeping.empty()) sleeping = at + ": variable " + kv.first + " is no longer evaluated (value " + fmt_double(it->second.empty() ? 0 : it->second[0]) + ", twin " + fmt_double(kv.second.empty() ? 0 : kv.second[0]) + ")"; continue; }
-      if (it->second.size() != kv.second.size() || memcmp(it->second.data(), kv.second.data(), kv.second.size() * sizeof(double)) != 0) { res.fail("twin", inactive ? "variable_inactive_after_its_biases_were_deleted" : "value", at + ": variable " + kv.first + " = " + fmt_double(it->second.empty() ? 0 : it->second[0]) + ", twin " + fmt_double(kv.second.empty() ? 0 : kv.second[0])); break; }
+      if (!same_vec(it->second, kv.second)) { res.fail("twin", inactive ? "variable_inactive_after_its_biases_were_deleted" : "value", at + ": variable " + kv.first + " = " + fmt_double(it->second.empty() ? 0 : it->second[0]) + ", twin " + fmt_double(kv.second.empty() ? 0 : kv.second[0])); break; }
       compared++;
     }
     if (res.violation) break;
     for (auto const &kv : b.be) {
       auto it = a.be.find(kv.first);
       if (it == a.be.end()) { res.fail("twin", "survivor_missing", at + ": bias " + kv.first + " exists in the twin but not in the run with deletions"); break; }
-      if (memcmp(&it->second, &kv.second, sizeof(double)) != 0) { res.fail("twin", "bias_energy", at + ": bias " + kv.first + " energy " + fmt_double(it->second) + ", twin " + fmt_double(kv.second)); break; }
+      if (!same_num(it->second, kv.second)) { res.fail("twin", "bias_energy", at + ": bias " + kv.first + " energy " + fmt_double(it->second) + ", twin " + fmt_double(kv.second)); break; }
     }
     if (res.violation) break;
     bool any_sleeping = false;
@@ -316,10 +321,10 @@ RunResult run(J const &plan) {
     bool same_sets = a.cv.size() == b.cv.size() && a.be.size() == b.be.size() && !any_sleeping && !twin_sleeps && tainted.empty();
     if (same_sets) {
       full++;
-      if (a.fapp.size() != b.fapp.size() || memcmp(a.fapp.data(), b.fapp.data(), a.fapp.size() * sizeof(double)) != 0) {
+      if (!same_vec(a.fapp, b.fapp)) {
         size_t k = 0; while (k < a.fapp.size() && a.fapp[k] == b.fapp[k]) k++;
         res.fail("twin", "atom_force", at + ": force component " + std::to_string(k) + " = " + fmt_double(k < a.fapp.size() ? a.fapp[k] : 0) + ", twin " + fmt_double(k < b.fapp.size() ? b.fapp[k] : 0));
-      } else if (memcmp(&a.energy, &b.energy, sizeof(double)) != 0) res.fail("twin", "total_energy", at + ": " + fmt_double(a.energy) + ", twin " + fmt_double(b.energy));
+      } else if (!same_num(a.energy, b.energy)) res.fail("twin", "total_energy", at + ": " + fmt_double(a.energy) + ", twin " + fmt_double(b.energy));
       else if (a.active_atoms != b.active_atoms) res.fail("twin", "active_atoms", at + ": " + std::to_string(a.active_atoms) + " atoms requested, twin " + std::to_string(b.active_atoms));
       else if (a.err != b.err) res.fail("twin", "error_bits", at + ": " + std::to_string(a.err) + ", twin " + std::to_string(b.err));
     }
